@@ -80,17 +80,17 @@ func c23Alphabet() []c23Op {
 		{Kind: "AddNode", Node: "n1", Pod: "p", Var: "plain"},
 		{Kind: "AddNode", Node: "n1", Pod: "p", Var: "certs+labels"},
 		{Kind: "AddNode", Node: "n1", Pod: "q", Var: "plain"},
-		{Kind: "AddNode", Node: "n2", Pod: "p", Var: "test+labels"},
-		{Kind: "AddNode", Node: "n2", Pod: "q", Var: "certs"},
+		{Kind: "AddNode", Node: "n11", Pod: "p", Var: "test+labels"},
+		{Kind: "AddNode", Node: "n11", Pod: "q", Var: "certs"},
 		{Kind: "RemoveNode", Node: "n1", Pod: "p"},
-		{Kind: "RemoveNode", Node: "n2", Pod: "p"},
-		{Kind: "RemoveNode", Node: "n2", Pod: "q"},
+		{Kind: "RemoveNode", Node: "n11", Pod: "p"},
+		{Kind: "RemoveNode", Node: "n11", Pod: "q"},
 		{Kind: "UpdateNodes", Node: "n1", Pod: "p", Var: "relabel+certs"},
-		{Kind: "UpdateNodes", Node: "n2", Pod: "p", Var: "bypass"},
+		{Kind: "UpdateNodes", Node: "n11", Pod: "p", Var: "bypass"},
 		{Kind: "SetNodeStatus", Node: "n1", TTL: 10},
 		{Kind: "SetNodeStatus", Node: "n1", TTL: -1},
-		{Kind: "SetNodeStatus", Node: "n2", TTL: 10},
-		{Kind: "SetNodeStatus", Node: "n2", TTL: -1},
+		{Kind: "SetNodeStatus", Node: "n11", TTL: 10},
+		{Kind: "SetNodeStatus", Node: "n11", TTL: -1},
 		{Kind: "AddWorkload", W: "w1"},
 		{Kind: "AddWorkload", W: "w1", Proc: "P1"},
 		{Kind: "AddWorkload", W: "w1", Var: "relabel", Proc: "P1"},
@@ -119,12 +119,14 @@ func c23Processing(name string) *coretypes.Processing {
 	case "P1":
 		return &coretypes.Processing{Appname: "a", Entryname: "web", Nodename: "n1", Ident: "i"}
 	case "P2":
-		return &coretypes.Processing{Appname: "b", Entryname: "web", Nodename: "n2", Ident: "i"}
+		return &coretypes.Processing{Appname: "ab", Entryname: "web", Nodename: "n11", Ident: "i"}
 	}
 	return nil
 }
 
-// c23Workload builds the workload record by hand: w1 = app a on n1, w2 = app b on n2;
+// The names are chosen so that one is a string prefix of the other (apps a/ab, nodes n1/n11): a key prefix
+// that lost its terminating "/" in one store shows as a difference.
+// c23Workload builds the workload record by hand: w1 = app a on n1, w2 = app ab on n11;
 // "relabel" keeps the identity and changes the labels, "moved" puts the same ID on the other node.
 func c23Workload(id, variant string) *coretypes.Workload {
 	w := &coretypes.Workload{ID: id, Podname: "p", Image: "img"}
@@ -132,7 +134,7 @@ func c23Workload(id, variant string) *coretypes.Workload {
 	case "w1":
 		w.Name, w.Nodename, w.Labels = "a_web_wone", "n1", map[string]string{"k": "v"}
 	default:
-		w.Name, w.Nodename, w.Labels = "b_web_wtwo", "n2", map[string]string{}
+		w.Name, w.Nodename, w.Labels = "ab_web_wtwo", "n11", map[string]string{}
 	}
 	switch variant {
 	case "relabel":
@@ -140,7 +142,7 @@ func c23Workload(id, variant string) *coretypes.Workload {
 	case "moved":
 		w.Labels = map[string]string{"k": "x"}
 		if w.Nodename == "n1" {
-			w.Nodename = "n2"
+			w.Nodename = "n11"
 		} else {
 			w.Nodename = "n1"
 		}
@@ -306,7 +308,7 @@ func c23Observe(ctx context.Context, s store.Store) map[string]string {
 		ns, err = s.GetNodesByPod(ctx, &coretypes.NodeFilter{Podname: p})
 		o["GetNodesByPod/"+name+"/up"] = c23NodeList(ns, err, true)
 	}
-	for _, n := range []string{"n1", "n2"} {
+	for _, n := range []string{"n1", "n11"} {
 		node, err := s.GetNode(ctx, n)
 		if err != nil {
 			o["GetNode/"+n] = "ERR"
@@ -331,8 +333,8 @@ func c23Observe(ctx context.Context, s store.Store) map[string]string {
 		ws, err = s.ListNodeWorkloads(ctx, n, map[string]string{"k": "v"})
 		o["ListNodeWorkloads/"+n+"/labels-k=v"] = c23WList(ws, err, false)
 	}
-	ns, err := s.GetNodes(ctx, []string{"n1", "n2"})
-	o["GetNodes/n1,n2"] = c23NodeList(ns, err, false)
+	ns, err := s.GetNodes(ctx, []string{"n1", "n11"})
+	o["GetNodes/n1,n11"] = c23NodeList(ns, err, false)
 	for _, w := range []string{"w1", "w2"} {
 		if wl, err := s.GetWorkload(ctx, w); err != nil {
 			o["GetWorkload/"+w] = "ERR"
@@ -353,13 +355,13 @@ func c23Observe(ctx context.Context, s store.Store) map[string]string {
 		labels           map[string]string
 	}
 	for _, q := range []lq{
-		{"", "", "", 0, nil}, {"a", "", "", 0, nil}, {"b", "", "", 0, nil}, {"a", "web", "", 0, nil}, {"a", "web", "n1", 0, nil}, {"a", "web", "n2", 0, nil},
+		{"", "", "", 0, nil}, {"a", "", "", 0, nil}, {"ab", "", "", 0, nil}, {"a", "web", "", 0, nil}, {"a", "web", "n1", 0, nil}, {"a", "web", "n11", 0, nil},
 		{"", "", "", 1, nil}, {"", "", "", 0, map[string]string{"k": "v"}},
 	} {
 		ws, err := s.ListWorkloads(ctx, q.app, q.entry, q.node, q.limit, q.labels)
 		o[fmt.Sprintf("ListWorkloads/app=%s,entry=%s,node=%s,limit=%d,labels=%s", q.app, q.entry, q.node, q.limit, c23Labels(q.labels))] = c23WList(ws, err, q.limit > 0)
 	}
-	for _, app := range []string{"a", "b"} {
+	for _, app := range []string{"a", "ab"} {
 		ds, err := s.GetDeployStatus(ctx, app, "web")
 		if err != nil {
 			o["GetDeployStatus/"+app] = "ERR"
@@ -748,7 +750,7 @@ func c23Run(t *testing.T, c *vcore.Ctx) {
 	alpha := c23Alphabet()
 	c.Bound("depth", depth)
 	c.Bound("mutating_operations", len(alpha))
-	c.Bound("universe", "pods {p,q}; nodes {n1,n2} (plain / certificates / labels k=v / test); workloads {w1 of app a on n1, w2 of app b on n2, relabelled, moved to the other node}; processing idents {a/web/n1/i, b/web/n2/i}")
+	c.Bound("universe", "pods {p,q}; nodes {n1,n11} (plain / certificates / labels k=v / test); workloads {w1 of app a on n1, w2 of app ab on n11, relabelled, moved to the other node}; processing idents {a/web/n1/i, ab/web/n11/i}")
 	c.SetRule("explicit-state BFS from the empty store over the real etcd store (in-memory etcd) and the real Redis store (miniredis) in lock-step: every transition applies one of the mutating Store calls (AddPod, RemovePod, AddNode x5 variants, RemoveNode, UpdateNodes, SetNodeStatus ttl in {-1,10}, AddWorkload with/without processing and relabelled/moved duplicates, UpdateWorkload, RemoveWorkload, SetWorkloadStatus ttl in {0,10}, CreateProcessing, DeleteProcessing) to both stores; after every transition the whole read alphabet (GetPod, GetAllPods, GetNode, GetNodes, GetNodesByPod by pod/labels/All, LoadNodeCert, GetNodeStatus, GetWorkload(s), GetWorkloadStatus, ListWorkloads by app/entry/node/limit/labels, ListNodeWorkloads, GetDeployStatus) runs on both and is compared entry by entry (limited lists by size, errors only as error/no error); states are de-duplicated on the pair of canonical read-backs plus the raw key dumps; a state whose read-backs differ is reported at the step that made them differ and not expanded; non-trivial = distinct reachable state with at least one entity")
 	c.Assume("etcd is the in-memory model memetcd (bound to the embedded etcd by ./check memetcd-conformance); Redis is miniredis; no time passes during a history (expiry is C25's subject)")
 	w := &c23World{t: t, c: c, b: b, alpha: alpha, report: true}
